@@ -38,7 +38,7 @@ use crate::ocfl::store::{Listing, OcflLayoutLenient, Storage};
 use crate::ocfl::validate::{IncrementalValidator, ObjectValidationResult, Validator};
 use crate::ocfl::Knowable::{Known, Unknown};
 use crate::ocfl::{
-    paths, specs, util, DigestAlgorithm, InventoryPath, Knowable, LayoutExtensionName, LogicalPath,
+    paths, specs, util, InventoryPath, Knowable, LayoutExtensionName, LogicalPath,
     ObjectInfo, RepoInfo, SpecVersion, VersionRef,
 };
 
@@ -268,31 +268,106 @@ impl S3OcflStore {
         })
     }
 
+    /// Replaces the inventory and sidecar in the object root with the ones in the new version, and,
+    /// on a spec version upgrade, swaps the object version declaration. If any of this fails, the
+    /// root inventory and sidecar are restored from the previous version, the new declaration and
+    /// the files uploaded for the new version are removed, and an error is returned.
     fn install_inventory_in_root_with_rollback(
         &self,
-        object_root: &str,
-        digest_algorithm: DigestAlgorithm,
+        existing_inventory: &Inventory,
+        inventory: &Inventory,
         version_path: impl AsRef<Path>,
         uploaded: Vec<String>,
     ) -> Result<()> {
+        let object_root = &existing_inventory.object_root;
         let inventory_src = paths::inventory_path(&version_path);
-        let sidecar_src = paths::sidecar_path(&version_path, digest_algorithm);
+        let sidecar_src = paths::sidecar_path(&version_path, inventory.digest_algorithm);
         let inventory_dst = join(object_root, INVENTORY_FILE);
         let sidecar_dst = join(
             object_root,
             &sidecar_src.file_name().unwrap().to_string_lossy(),
         );
 
-        self.do_with_rollback(uploaded, |done: &mut Vec<String>| -> Result<()> {
+        let mut root_modified = false;
+        let mut new_namaste = None;
+
+        let mut install = || -> Result<()> {
+            root_modified = true;
             self.s3_client
                 .put_object_file(&inventory_dst, &inventory_src, Some(TYPE_JSON))?;
-            done.push(inventory_dst.clone());
             self.s3_client
                 .put_object_file(&sidecar_dst, &sidecar_src, Some(TYPE_PLAIN))?;
+
+            if inventory.type_declaration != existing_inventory.type_declaration {
+                // This is a version upgrade
+                let version = inventory.spec_version().unwrap();
+                let old_namastes = self.find_files(object_root, OBJECT_NAMASTE_FILE_PREFIX)?;
+                new_namaste = Some(join(object_root, version.object_namaste().filename));
+                self.write_object_namaste(object_root, version)?;
+                for old in old_namastes {
+                    self.s3_client.delete_object(&old)?;
+                }
+            }
+
             Ok(())
-        })?;
+        };
+
+        if let Err(e) = install() {
+            if root_modified {
+                self.restore_root_inventory(existing_inventory, &sidecar_dst);
+            }
+            if let Some(namaste) = new_namaste {
+                if let Err(e2) = self.s3_client.delete_object(&namaste) {
+                    error!("Failed to rollback file {}: {}", namaste, e2);
+                }
+            }
+            for path in &uploaded {
+                if let Err(e2) = self.s3_client.delete_object(path) {
+                    error!("Failed to rollback file {}: {}", path, e2);
+                }
+            }
+            return Err(RocflError::General(
+                format!("Failed to upload all files to S3. Successfully uploaded files were rolled back. Error: {}", e)));
+        }
 
         Ok(())
+    }
+
+    /// Copies the inventory and sidecar of the object's current head version back into the object
+    /// root. Failures are logged.
+    fn restore_root_inventory(&self, existing_inventory: &Inventory, new_sidecar: &str) {
+        let object_root = &existing_inventory.object_root;
+        let version_dir = join(object_root, &existing_inventory.head.to_string());
+        let sidecar_name = paths::sidecar_name(existing_inventory.digest_algorithm);
+
+        let restore = |name: &str, content_type: &str| -> Result<()> {
+            match self.s3_client.get_object(&join(&version_dir, name))? {
+                Some(bytes) => self.s3_client.put_object_bytes(
+                    &join(object_root, name),
+                    Bytes::from(bytes),
+                    Some(content_type),
+                ),
+                None => Err(RocflError::General(format!(
+                    "{} does not exist in {}",
+                    name, version_dir
+                ))),
+            }
+        };
+
+        if let Err(e) = restore(INVENTORY_FILE, TYPE_JSON) {
+            error!("Failed to restore the root inventory of {}: {}", object_root, e);
+        }
+        if let Err(e) = restore(&sidecar_name, TYPE_PLAIN) {
+            error!("Failed to restore the root inventory sidecar of {}: {}", object_root, e);
+        }
+
+        let old_sidecar = join(object_root, &sidecar_name);
+        if old_sidecar != new_sidecar {
+            // The digest algorithm changed; the sidecar of the failed version is a different file
+            if let Err(e) = self.s3_client.delete_object(new_sidecar) {
+                error!("Failed to rollback file {}: {}", new_sidecar, e);
+            }
+        }
     }
 
     fn do_with_rollback(
@@ -527,26 +602,13 @@ impl OcflStore for S3OcflStore {
 
         let uploaded = self.upload_all_files_with_rollback(&version_dst_path, version_path)?;
         self.install_inventory_in_root_with_rollback(
-            &existing_inventory.object_root,
-            inventory.digest_algorithm,
+            &existing_inventory,
+            inventory,
             version_path,
             uploaded,
         )?;
 
         inventory.storage_path = existing_inventory.storage_path;
-
-        if inventory.type_declaration != existing_inventory.type_declaration {
-            // This is a version upgrade
-            let old_namastes =
-                self.find_files(&existing_inventory.object_root, OBJECT_NAMASTE_FILE_PREFIX)?;
-            self.write_object_namaste(
-                &existing_inventory.object_root,
-                inventory.spec_version().unwrap(),
-            )?;
-            for old in old_namastes {
-                self.s3_client.delete_object(&old)?;
-            }
-        }
 
         Ok(())
     }
